@@ -85,5 +85,8 @@ func runC03(c *Ctx) []Obligation {
 			Target: CallTo(`^dyn:cb\(`).Except(`^dyn:cb\(node, depth\)$`), Why: "the callback receives the node being visited"},
 		{Prop: P, ID: "range.nil-node-stops-nothing", Fn: "(*store/iavl.Node).traverseInRange", Assume: []Lit{F(`^nonnil\(node\)$`)}, Target: CallTo(`^dyn:cb\(|traverseInRange\(`), Why: "an empty subtree visits nothing"},
 	}
-	return c.Rows(rows)
+	out := c.Rows(rows)
+	out = append(out, c.twins(P, "rotate.twins", T0+"rotateLeft", T0+"rotateRight", []Rename{{From: "Left", To: "Right", Swap: true}, {From: "left", To: "right", Swap: true}},
+		"a right rotation is a left rotation with the two sides exchanged"))
+	return out
 }
